@@ -50,6 +50,7 @@ def run(F, R, tier):
     R.guard(_contracts, F, R)
     R.guard(_call_sites, F, R)
     R.guard(_error_bounds, F, R)
+    R.guard(_stateless, F, R)
 
 
 def _entry_instantiations(F):
@@ -259,10 +260,17 @@ def _check_path(F, R, SF, I, args, g, nm, doc, sig, loc, m_word, sites, analysed
         analysed.append(dict(entry=sig, called_from=sites[:3], functions=sorted(set(x.split("::")[-1] for x in I.functions_seen)),
                              axioms=[a[2] for a in I.axioms],
                              outputs=[o[1].show() if o[0] == "vec" else show_word(o[1]) if o[0] == "mat" else o[0] for o in outs]))
+        for rk in I.risky:
+            R.fail("R1", sig + " (domain)", loc, rk, key="R1|%s|risky|%s" % (sig, rk[-60:]))
         if len(I.axioms) != 1:
-            R.soft_broken("%s: expected exactly one solver invocation, found %d" % (sig, len(I.axioms)))
+            R.soft_broken("%s: expected exactly one solver invocation / path assumption about the input, found %d" % (sig, len(I.axioms)))
             return
         ax_arg, ax_rhs, ax_txt = I.axioms[0]
+        # a real scalar rescaling of the input commutes with the decomposition: move it to the other side
+        sc_ = tuple(f_ for f_ in ax_arg if f_[0] == "c")
+        if sc_:
+            ax_arg = tuple(f_ for f_ in ax_arg if f_[0] != "c")
+            ax_rhs = tuple(MA.f_inverse_scalar(f_) for f_ in sc_) + tuple(ax_rhs)
         if ax_arg != m_word:
             R.fail("R1", sig, loc, "the solver is applied to %s, not to the input matrix" % show_word(ax_arg), key="R1|%s|arg" % sig)
             return
@@ -522,3 +530,21 @@ def _error_bounds(F, R):
                     "(degenerate values) makes the error bound of the vectors infinite / NaN", key="R6|disna|%s" % f["params"][1]["t"][:40])
     if n_store < 2:
         R.soft_broken("R6: stores through *_errbd pointers not found (%d)" % n_store)
+
+
+def _stateless(F, R):
+    R.rule("R7", "the decomposition routines keep no object with static or thread storage duration (a cached solver would carry the "
+                 "options and workspace of an earlier call into the next one: the factors returned would depend on the call history)", 0)
+    n = 0
+    for key, g in sorted(F.globals.items()):
+        if not (g["file"].endswith("gm2_linalg.hpp") or g["file"].endswith("gm2_eigen_utils.hpp")):
+            continue
+        n += 1
+        t = str(g.get("t") or "")
+        plain_const = (g.get("const") or g.get("constexpr") or t.startswith("const ")) and \
+            re.match(r"^(const )?(static )?(double|float|long double|int|unsigned|bool|Real)\b", t.replace("constexpr ", "")) is not None
+        R.check("R7", bool(plain_const), "%s : %s" % (g["name"].split("::")[-1], t[:50]), "%s:%s" % (g["file"], g["line"]),
+                "object `%s` of type %s has static / thread storage duration%s: its state (e.g. the decomposition options of the first "
+                "call) survives into later calls" % (g["name"].split("::")[-1], t[:60],
+                                                     " in %s" % g.get("infunc") if g.get("infunc") else ""), key="R7|" + g["name"])
+    R.analysed["static_objects_in_linalg_headers"] = n
